@@ -275,6 +275,18 @@ func cmdCheck(eng *Engine, args []string) int {
 			violation(ob.Name, body, !replayed)
 		}
 	}
+	// finite-domain obligations (complete evaluation of the real code)
+	for _, r := range eng.finiteDomain(id, tmp) {
+		nOb++
+		if r.OK {
+			nOK++
+			byBackend["finite-domain"]++
+			samples = append(samples, fmt.Sprintf("%s: %s  [finite-domain: real code evaluated on the complete domain]", r.Name, r.Goal))
+			continue
+		}
+		// the mismatching cases ARE the failing inputs, observed on the real code
+		violation(r.Name, fmt.Sprintf("obligation: %s\nkind: finite-domain\ngoal: %s\nREPRODUCED on the real code (go test -overlay harness in package directive):\n%s\n", r.Name, r.Goal, r.Detail), false)
+	}
 	if nOb == 0 {
 		violation("no-obligations", "no obligation was generated for this property (vacuity guard)\n", true)
 	}
@@ -284,7 +296,9 @@ func cmdCheck(eng *Engine, args []string) int {
 	sort.Strings(fnNames)
 	var as []string
 	for a := range assumed {
-		if strings.HasPrefix(a, "GLOBALINV ") {
+		if strings.HasPrefix(a, "AXIOM ") {
+			as = append(as, "definitional axiom of an abstract predicate, "+strings.TrimSpace(a[6:]))
+		} else if strings.HasPrefix(a, "GLOBALINV ") {
 			as = append(as, "package-level variable initialised once and never reassigned: "+strings.TrimSpace(a[10:]))
 		} else if strings.HasPrefix(a, "ASSUME ") {
 			as = append(as, "unchecked assume clause of "+a[7:])
